@@ -20,7 +20,7 @@ def jobs_for(tier, seed):
     pts = universe.points(tier, seed, files_quick=900, narrow=True)
     for i, (name, text) in enumerate(universe.boundary_sources()):
         for w in ((60, 100) if tier == "quick" else (40, 60, 80, 100, 120)):
-            se = universe.STYLE_EDITIONS[(i + w) % 3]
+            se = universe.STYLE_EDITIONS[(core.fnv(name.encode()) + w) % 3]
             pts.append((f"{name}@w={w},se={se},v0", name, text,
                         {"max_width": w, "style_edition": se}))
     jobs = []
